@@ -224,6 +224,34 @@ def run(ctx: Ctx, tier: str) -> Result:
     else:
         res.fail(Finding("C10.SCOPE", gf[0].qname, "<eval_watch(field_name)>", gf[0].loc(), "log fields are not evaluated through eval_watch with the field text"))
 
+    # every request is a fresh evaluation in the frame: the eval call is unconditional (no remembered answer for the same text)
+    econds = paths.enclosing_conditions(p, ecall, ev)
+    eearly = [n for n in t.nodes_in(ev, ast.Return) if n.lineno < ecall.lineno and not paths.within(p, ecall, n)]
+    if econds or eearly:
+        what_ = econds[0][0] if econds else eearly[0]
+        res.fail(Finding("C10.SCOPE", ev.qname, what_, ev.loc(what_), "the expression is only evaluated when `%s`: a repeated expression (two log fields, a watch and the condition) gets a "
+                         "remembered answer instead of being evaluated where it stands" % norm(what_)[:60]))
+    else:
+        res.ok("C10.SCOPE", {"every call evaluates": ev.loc(ecall)})
+    # the failure of an expression is turned into its error text inside the guard of the watch: str() of the program's
+    # exception runs program code and may fail in turn
+    ewf_ = p.func(AC + ".eval_watch")
+    tryc = [c for c in t.calls_in(ewf_) if any(x in api for x in t.resolve_call(c, ewf_).repo)]
+    for c in tryc:
+        st_ = paths.stmt_of(p, c)
+        names_ = set()
+        if isinstance(st_, ast.Assign):
+            for tg_ in st_.targets:
+                for n in ast.walk(tg_):
+                    if isinstance(n, ast.Name):
+                        names_.add(n.id)
+        for n in t.nodes_in(ewf_, ast.Call):
+            if norm(n.func) in ("str", "repr", "format") and n.args and isinstance(n.args[0], ast.Name) and n.args[0].id in names_:
+                if g.catching_try(n, ewf_, "BaseException") is not None:
+                    res.ok("C10.CONTAIN", {"error text made inside the guard": ewf_.loc(n)})
+                else:
+                    res.fail(Finding("C10.CONTAIN", ewf_.qname, n, ewf_.loc(n), "`%s` renders the outcome of the evaluation (the program's exception object when it failed) outside the "
+                                     "guard of the watch: an exception whose __str__ fails loses the whole snapshot / log line instead of this one result" % norm(n)))
     # evaluate_expression hands out the value (not the success flag) of the tagged evaluation
     evx = [f for f in api if f.name == "evaluate_expression"]
     tryx = [f for f in api if f.name == "try_evaluate_expression"]
